@@ -12,8 +12,11 @@ git -C /repo apply --check "$patch" || { echo "patch does not apply"; exit 3; }
 git -C /repo apply "$patch"
 for p in "$@"; do
   echo "== $p on $(basename $(dirname $patch))/$(basename $patch)" >> "$out"
-  /verif/check "$p" 2>&1 | grep -E "^(VIOLATION|OK|KNOWN|  )" | head -6 >> "$out"
+  /verif/check "$p" > "$out.full" 2>&1
+  grep -E -A1 "^(VIOLATION|OK|KNOWN)" "$out.full" | grep -v "^--" | head -8 >> "$out"; rm -f "$out.full"
 done
 git -C /repo checkout -- .
+# the generated tables were regenerated from the changed tree: bring them back to the unchanged one
+python3 /verif/tools/extract.py > /dev/null 2>&1 || true
 cat "$out" 2>/dev/null || true
 git -C /repo status --short | head -3
